@@ -1,6 +1,7 @@
 //@ include prelude/header.rs
 //@ unit U05 handlers/hunk_header.rs: hunk header emission (C05 header number/path, C14 one hunk header, C01 lines kept, C03 indexing)
 verus! {
+//@ set PAINTER_EXTRA ,highlighter
 //@ set CONFIG_EXTRA ,hunk_header_file_style,hunk_header_line_number_style,hunk_header_style_include_file_path,hunk_header_style_include_line_number,hunk_header_style_include_code_fragment,decorations_width,null_style
 //@ include prelude/sm_env.rs
 
@@ -75,10 +76,12 @@ impl<'a> StateMachine<'a> {
     //@rewrite <<<self.line.chars().take_while(|c| c == &'@').count()>>> => <<<verif_count_leading_ats(&self.line)>>>
     //@rewrite <<<if let &[(_, minus_lines), (_, _plus_lines), ..] = parsed_hunk_header.line_numbers_and_hunk_lengths.as_slice() {>>> => <<<if parsed_hunk_header.line_numbers_and_hunk_lengths.len() >= 2 { let minus_lines = parsed_hunk_header.line_numbers_and_hunk_lengths[0].1;>>>
     //@ fn src/handlers/hunk_header.rs StateMachine::emit_hunk_header_line spec=hunk_header.emit_hunk_header_line
-    //@before <<<self.painter.set_highlighter(); self.painter.emit()?;>>>| assert(/* @C01:ehh.keeps.lines.step */ all_lines(&self.painter) =~= all_lines(&old(self).painter));
+    //@after <<<self.painter.paint_buffered_minus_and_plus_lines();>>>| assert(/* @C01:ehh.keeps.lines.step */ all_lines(&self.painter) =~= all_lines(&old(self).painter)); let ghost mut fresh_highlighter = false;
+    //@after#1/2 <<<self.painter.set_highlighter();>>>| proof { fresh_highlighter = true; }
+    //@before <<<write_line_of_code_with_optional_path_and_line_number(>>>| assert(/* @C10,C15:the.code.fragment.of.a.hunk.header.is.highlighted.with.a.highlighter.made.for.this.hunk.not.with.what.the.lines.before.left.behind */ fresh_highlighter);
     //@before <<<let ParsedHunkHeader {>>>| let ghost h1 = self.painter.writer.hist(); assert(only_text_after(h1, h1)); assert(self.painter.output_buffer@ =~= Seq::<char>::empty()); assert(/* @C01:ehh.keeps.lines.step */ all_lines(&self.painter) =~= all_lines(&old(self).painter));
     //@before <<<write_line_of_code_with_optional_path_and_line_number( code_fragment,>>>| let ghost hb = self.painter.writer.hist(); let ghost expected_path = if self.plus_file@ == "/dev/null"@ { self.minus_file@ } else { self.plus_file@ };
-    //@after <<<":", self.config, )?;>>>| assert(/* @C05,C14:ehh.header.number.path.fragment */ self.painter.writer.hist() == hb || self.painter.writer.hist() == hb.push(Ev::Text(wloc_out(parsed_hunk_header.code_fragment@, parsed_hunk_header.line_numbers_and_hunk_lengths@.last().0, line@, expected_path), true)));
+    //@after <<<":", self.config, )?;>>>| assert(/* @C05,C14,C19:ehh.header.number.path.fragment */ self.painter.writer.hist() == hb || self.painter.writer.hist() == hb.push(Ev::Text(wloc_out(parsed_hunk_header.code_fragment@, parsed_hunk_header.line_numbers_and_hunk_lengths@.last().0, line@, expected_path), true)));
     //@before <<<Ok(true)>>>| proof { assert(only_text_after(h1, self.painter.writer.hist())); lemma_hist_lines_only_text(h1, self.painter.writer.hist()); assert(self.painter.output_buffer@ =~= Seq::<char>::empty()); assert(/* @C01:ehh.keeps.lines.step */ all_lines(&self.painter) =~= all_lines(&old(self).painter)); }
     //@ fn src/handlers/hunk_header.rs StateMachine::handle_pending_hunk_header_line spec=hunk_header.pending optional=1
 }
